@@ -14,12 +14,15 @@ _bin = {}
 def svgdx_bin(repo):
     if repo in _bin:
         return _bin[repo]
-    env = dict(os.environ, CARGO_TARGET_DIR=TARGET, CARGO_NET_OFFLINE="true")
+    # one target directory per source tree: cargo does not re-link debug/svgdx when it finds another tree's build fresh
+    import hashlib
+    target = TARGET if os.path.realpath(repo) == "/repo" else TARGET + "-" + hashlib.md5(os.path.realpath(repo).encode()).hexdigest()[:8]
+    env = dict(os.environ, CARGO_TARGET_DIR=target, CARGO_NET_OFFLINE="true")
     p = subprocess.run(["cargo", "build", "--offline", "--quiet", "--bin", "svgdx", "--no-default-features", "--features", "cli"],
                        cwd=repo, env=env, stdout=subprocess.PIPE, stderr=subprocess.PIPE, universal_newlines=True, timeout=900)
     if p.returncode != 0:
         raise RuntimeError("cargo build failed: " + p.stderr[-500:])
-    _bin[repo] = os.path.join(TARGET, "debug", "svgdx")
+    _bin[repo] = os.path.join(target, "debug", "svgdx")
     return _bin[repo]
 
 
@@ -725,3 +728,27 @@ def _root_and_embedded(repo, ob, failure):
 
 for _p in ("C02.root.", "C02.detect", "C03.document.", "C03.events.nested", "C03.events.frame", "C03.detect", "C05.root.", "C05.detect", "C11.detect", "C10.detect"):
     GENERATORS.insert(0, (_p, _root_and_embedded))
+
+
+def _class_fixed_point(repo, ob, failure):
+    """class lists stay duplicate free whatever variables expand to: T(T(x)) == T(x) and no class twice"""
+    import re as _re
+    docs = ['<svg><var e="d-red d-thick"/><g class="d-red $e"><rect wh="5"/></g></svg>',
+            '<svg><var e="a b"/><g class="b $e a"><rect wh="5" class="$e b"/></g></svg>',
+            '<svg><rect wh="5" class="a a b"/></svg>']
+    for doc in docs:
+        r1 = run_svgdx(repo, doc)
+        if r1["rc"] != 0:
+            continue
+        for m in _re.finditer(r'class="([^"]*)"', r1["out"]):
+            cl = m.group(1).split()
+            if len(cl) != len(set(cl)):
+                return {"input": doc, "observed": "class list with a duplicate entry: class=\"%s\"" % m.group(1), "expected": "every class at most once"}
+        r2 = run_svgdx(repo, r1["out"])
+        if r2["rc"] != 0 or r2["out"] != r1["out"]:
+            return {"input": doc, "observed": "second pass differs (rc=%s)" % r2["rc"], "expected": "byte-identical output"}
+    return None
+
+
+GENERATORS.insert(0, ("C05.class.", _class_fixed_point))
+GENERATORS.insert(0, ("C06.class.", _class_fixed_point))
